@@ -69,14 +69,17 @@ class ControlFlowTransformer(converter.Base):
       self, block_vars, nonlocal_declarations, getter_name, setter_name,
       reserved=frozenset()):
     if not block_vars:
+      # The (unused) parameter is a generated name like any other.
+      vars_name = self.ctx.namer.new_symbol('block_vars', reserved)
       template = """
         def getter_name():
           return ()
-        def setter_name(block_vars):
+        def setter_name(vars_name):
           pass
       """
       return templates.replace(
-          template, getter_name=getter_name, setter_name=setter_name)
+          template, getter_name=getter_name, setter_name=setter_name,
+          vars_name=vars_name)
 
     guarded_block_vars = []
     for v in block_vars:
